@@ -155,11 +155,28 @@ def run(ctx) -> Result:
                                     moved_out_ops=True)
             one(ctx, res, hist, cfg, batch, "soundness")
     pipecheck.check_model(res, "C03", batch)
+    buffer_layer(ctx, res)
     return res
+
+
+def buffer_layer(ctx, res: Result):
+    """The gated driver lets the reader and the emitter take turns; the interleavings INSIDE the buffer (the emitter waiting in
+    DelayedQueue.get() while the reader pairs, removes and puts - a rename whose halves arrive in separate reads) are those of
+    the reader/consumer LTS the Pipeline model sits on (Grouping.v over DelayQueue.v): its lock-step tie and the
+    exactly-once / pairing / never-early oracle run here too (shared with C08 and C01)."""
+    from harness.props import c08
+    cases, metas = [], []
+    c08.buffer_campaign(ctx, res, cases, metas, 60 if not ctx.thorough else 400, corpus=False)
+    c08.compare(res, cases, metas)
+    res.notes.append("buffer layer: real InotifyBuffer + DelayedQueue under the deterministic scheduler in lock-step with Grouping.v/"
+                     "DelayQueue.v (renames cut across reads, consumer inside get() while the reader pairs) - shared with C08")
 
 
 def replay(ctx, obj) -> int:
     case = obj.get("case", obj)
+    if isinstance(case, dict) and "program" in case:
+        from harness.props import c08
+        return c08.replay(ctx, obj)
     res = Result()
     batch = []
     one(ctx, res, case["history"], (case["recursive"], case["full_events"], case["path_kind"]), batch, case.get("mode", "contract"))
